@@ -164,3 +164,16 @@ pub fn minimal_cfg(oov_pos: &[String; 6]) -> Value {
         "oovProviderPlugin": [ simple_oov(oov_pos, 0, 0, 30000) ]
     })
 }
+
+/// Points file descriptor 1 to /dev/null (the code under test prints debug dumps with println!)
+pub fn silence_stdout() {
+    use std::os::unix::io::AsRawFd;
+    extern "C" {
+        fn dup2(oldfd: i32, newfd: i32) -> i32;
+    }
+    if let Ok(f) = std::fs::OpenOptions::new().write(true).open("/dev/null") {
+        unsafe {
+            dup2(f.as_raw_fd(), 1);
+        }
+    }
+}
